@@ -29,9 +29,10 @@ type trEntry struct {
 type treeCase struct {
 	Tree []trEntry `json:"tree"`
 	Cfg  struct {
-		Version int  `json:"version"`
-		Nowrap  bool `json:"nowrap"`
-		Stdin   bool `json:"stdin"`
+		Version int    `json:"version"`
+		Nowrap  bool   `json:"nowrap"`
+		Spell   string `json:"spell"`
+		Stdin   bool   `json:"stdin"`
 	} `json:"cfg"`
 	Expected []struct {
 		Path []string `json:"path"`
@@ -52,6 +53,8 @@ func treeContent(class, name string) []byte {
 		return detBytes("chunk-"+name, 262144)
 	case "multichunk":
 		return detBytes("multi-"+name, 600*1024+17)
+	case "dirbytes": // exactly the dag-pb block of an empty UnixFS directory: same multihash as that node, other codec
+		return dagpbNode(nil, ufsData(ufsDirectory, nil, -1))
 	case "repeatchunk":
 		return make([]byte, 600*1024) // identical chunks
 	}
@@ -141,8 +144,16 @@ func runTreeCase(carBin string, c *treeCase, base string) (string, string) {
 	if c.Cfg.Nowrap {
 		args = append(args, "--no-wrap")
 	}
-	args = append(args, src)
-	if out, err := exec.Command(carBin, args...).CombinedOutput(); err != nil {
+	ccmd := exec.Command(carBin, append(args, src)...)
+	switch c.Cfg.Spell {
+	case "dot": // run inside the tree, source spelled "."
+		ccmd = exec.Command(carBin, append(args, ".")...)
+		ccmd.Dir = src
+	case "dirdot":
+		ccmd = exec.Command(carBin, append(args, "src/.")...)
+		ccmd.Dir = sand
+	}
+	if out, err := ccmd.CombinedOutput(); err != nil {
 		return "create-failed", fmt.Sprintf("car %v: %v %s", args[:len(args)-1], err, strings.TrimSpace(string(out)))
 	}
 	// the printed root is the single header root
@@ -202,7 +213,7 @@ func runTreeCase(carBin string, c *treeCase, base string) (string, string) {
 		rel := filepath.Join(parts...)
 		// what the source tree has at the corresponding place
 		srel := rel
-		if !c.Cfg.Nowrap {
+		if !c.Cfg.Nowrap && (c.Cfg.Spell == "abs" || c.Cfg.Spell == "") {
 			srel = strings.TrimPrefix(strings.TrimPrefix(rel, "src"), string(os.PathSeparator))
 		}
 		if srel == "" {
@@ -277,7 +288,9 @@ func runTreeReplay(args []string) int {
 		}()
 	}
 	err := readTLCRecords(in, func(raw []byte) error {
-		if permille < 1000 {
+		// always taken: a file with the bytes of an empty-directory node next to an empty directory
+		collide := bytes.Contains(raw, []byte(`"dirbytes"`)) && bytes.Contains(raw, []byte(`"ch":[]`))
+		if permille < 1000 && !collide {
 			h := fnv.New64a()
 			h.Write(raw)
 			if (h.Sum64()+seed*7919)%1000 >= uint64(permille) {
